@@ -183,8 +183,14 @@ def measure(ctx, pydsdl, mon, u, workdir, case):
 def run_case(ctx, pydsdl, mon, template, workdir):
     u0, slots, ext_slots = template
     snaps = []
+    # a third of the templates also carry a second minor version (same body) of their last definition: reading then runs the
+    # cross-version consistency checks, which must not look into the sets either
+    twin_minor = (len(slots) + sum(ext_slots.values()) + len(u0)) % 3 == 0
     for variant in range(3):
         u = instantiate(u0, slots, ext_slots, variant)
+        if twin_minor:
+            u = u + [dict(copy.deepcopy(u[-1]), ver=(1, 1))]
+            ctx.cls("second-minor-version")
         case = {"template": u0, "slots": [[list(k), list(v)] for k, v in slots.items()], "ext_slots": ext_slots, "variant": variant}
         ctx.mon("instantiations")
         try:
